@@ -160,8 +160,9 @@ def check_case(fmt, spec, tmpdir):
                 data = load_one(path, **kwargs)
             except LoadError as exc:
                 if core:
+                    cause = type(exc.__cause__).__name__ if exc.__cause__ is not None else "LoadError"
                     return [
-                        Problem(f"C03/{fmt}/refused", f"well-formed file refused: {exc!r} caused by {exc.__cause__!r}")
+                        Problem(f"C03/{fmt}/refused/{cause}", f"well-formed file refused: {exc!r} caused by {exc.__cause__!r}")
                     ], labels, False
                 return [], labels + ["refused_extended"], False
             except Exception as exc:
